@@ -16,18 +16,18 @@ import (
 // a fact about an expression is dropped when its root variable may be
 // reassigned between the point where the fact was established and the use.
 type Facts struct {
-	MinLen   map[string]int    // len(E) >= n
-	LtLen    map[string]string // index expr I (printed) -> E such that 0 <= I < len(E)
-	LeLen    map[string]string // I <= len(E)
-	NonNil   map[string]bool   // E != nil
-	IsNil    map[string]bool   // E == nil
-	MakeLen  map[string]string // X -> Y where X := make([]T, len(Y)) (len(X) == len(Y))
-	True     map[string]bool   // printed boolean expressions known true
-	False    map[string]bool   // printed boolean expressions known false
-	EqLen    map[string]int    // len(E) == n exactly
-	factPos  map[string]token.Pos
-	GeZero   map[string]bool   // I >= 0
-	MinVal   map[string]int    // I >= n (n >= 1 recorded here; n == 0 also sets GeZero)
+	MinLen  map[string]int    // len(E) >= n
+	LtLen   map[string]string // index expr I (printed) -> E such that 0 <= I < len(E)
+	LeLen   map[string]string // I <= len(E)
+	NonNil  map[string]bool   // E != nil
+	IsNil   map[string]bool   // E == nil
+	MakeLen map[string]string // X -> Y where X := make([]T, len(Y)) (len(X) == len(Y))
+	True    map[string]bool   // printed boolean expressions known true
+	False   map[string]bool   // printed boolean expressions known false
+	EqLen   map[string]int    // len(E) == n exactly
+	factPos map[string]token.Pos
+	GeZero  map[string]bool // I >= 0
+	MinVal  map[string]int  // I >= n (n >= 1 recorded here; n == 0 also sets GeZero)
 }
 
 func newFacts() *Facts {
